@@ -120,6 +120,16 @@ func loadCorpus() {
 		qcase{text: "match (a:NodeKind2:NodeKind1)-[r]->(b) where b:NodeKind2:NodeKind1 return a, b"},
 	)
 	corpus = append(corpus, rich...)
+	// parseable calls of the functions the translator knows with the wrong number of arguments (none, two,
+	// three): unsupported shapes are answered with an error, like everything else
+	for _, fn := range []string{"count", "date", "time", "localtime", "datetime", "localdatetime", "duration", "id", "tolower", "toupper", "labels", "type",
+		"startnode", "endnode", "split", "tostring", "tointeger", "size", "head", "tail", "nodes", "relationships", "coalesce", "collect", "sum", "avg", "min", "max"} {
+		corpus = append(corpus,
+			qcase{text: "match (n) return " + fn + "()"},
+			qcase{text: "match (n)-[r]->(m) return " + fn + "(n, r)"},
+			qcase{text: "match (n) with " + fn + "(n.a, n.b, n.c) as x return x"},
+		)
+	}
 	// a few builder-style / awkward extras
 	for _, q := range []string{
 		"match (n) return n", "match (n:User) where n.name = 'a' return n.name order by n.name limit 5",
